@@ -17,7 +17,10 @@ Correspondence (all against the REAL code in $VERIF_REPO, nothing copied):
      packaged and with the model's remote_run on the model's own upload (real zlib: contents after
      decompression are compared; stand-in zlib: the same bytes and the same cutting on both sides)
   D  the real client._main up to its first runonce, on the real ssh.connect with scripted socket
-     I/O: order of pipe writes / queued frames / sync verification vs the model's client_startup
+     I/O: order of pipe writes / queued frames / sync verification vs the model's client_startup; implementation-only
+     oracle on every run: 'Connected to server.' <=> ssh alive and the 12 bytes after the second NUL of the server's output
+     are exactly SSHUTTLE0001 (stream-level specification = extracted hs_spec, theorem c18_connected_iff_announced), incl.
+     outputs that END after 0..11 bytes of the announcement / before the second NUL while ssh is still alive
   E  stdout of the really bootstrapped real server starts with the model's server_sync.
   F  -r given: the argv the REAL ssh.connect builds (rhostport, --python, --ssh-cmd, --no-cmd-delimiter, --remote-shell) is
      started for real on a stand-in `ssh`/`sshpass` whose remote side hands the joined command string to a REAL login
@@ -2104,6 +2107,75 @@ def client_trace(options_extra, server_chunks, poll, seed_hosts, accept, srcs=No
         return list(ev), list(bd.sock.rec), list(bd.packaged)
 
 
+ANNOUNCEMENT = b"SSHUTTLE0001"     # what the property calls "the server has announced itself": server.py's first 12 bytes after two NULs
+
+WHAT_CONNECTED_SHORT = ("the client reported 'Connected to server.' and went on to the multiplexer although the server never announced "
+                        "itself: the server's output ENDED before the 12 bytes of the announcement were complete (ssh still alive) -- "
+                        "accepted must mean that the 12 bytes after the two NULs are exactly SSHUTTLE0001, so a proper prefix of it, or "
+                        "nothing at all, says nothing about the protocol version the other end speaks")
+WHAT_CONNECTED_OTHER = ("the client reported 'Connected to server.' and went on to the multiplexer although the 12 bytes after the two "
+                        "NULs of the server's output are not the announcement SSHUTTLE0001: the two ends need not speak the same "
+                        "protocol version")
+WHAT_REFUSED_ANNOUNCED = ("the client refused ('expected server init string') a server that announced itself with exactly SSHUTTLE0001 "
+                          "after two NULs while ssh was alive: the announcement check does not depend on the stream alone")
+
+
+def announced(stream):
+    """spec side, from the property text alone: (did the server announce itself, number of bytes that follow the second NUL).
+    announced <=> the 12 bytes after the second NUL are exactly the announcement (Coq: c18_connected_iff_announced)"""
+    i1 = stream.find(b"\0")
+    i2 = stream.find(b"\0", i1 + 1) if i1 >= 0 else -1
+    after = stream[i2 + 1:] if i2 >= 0 else b""
+    return after[:len(ANNOUNCEMENT)] == ANNOUNCEMENT, len(after)
+
+
+def announcement_verdict(ctx, ev, sc, poll, seed, accept):
+    """the oracle of "... until the server has announced itself, so both ends always speak the same protocol version" on one
+    recorded start-up: judged against the stream-level specification (python reading of the property text, cross-checked
+    with the extracted hs_spec), NOT against the model's trace.  Returns the number of violations reported."""
+    stream = b"".join(sc)
+    ok_spec, nafter = announced(stream)
+    mline = ctx.run_driver(["HSSPEC %s" % hx(stream)])[0]
+    if (mline.split(" ")[0] == "1") != ok_spec:
+        ctx.disagree("announcement: the extracted hs_spec and the reading of the property text differ", hx(stream)[:300], ok_spec, mline[:80])
+    connected = "OK" in ev
+    rep = {"kind": "client_announcement", "server_deliveries": [hx(c) for c in sc], "poll": poll,
+           "seed_hosts": None if seed is None else [s[:20] for s in seed], "accept": accept,
+           "server_output_hex": hx(stream)[:400], "bytes_after_the_second_nul": nafter, "announced_per_specification": ok_spec,
+           "trace": [e[:60] for e in ev]}
+    if connected and not ok_spec:
+        idx = ev.index("OK")
+        rep["written_to_the_unannounced_peer_afterwards"] = [e[:60] for e in ev[idx + 1:] if e.startswith("W:")]
+        ctx.violation(WHAT_CONNECTED_SHORT if nafter < len(ANNOUNCEMENT) else WHAT_CONNECTED_OTHER, rep)
+        return 1
+    if not connected and ok_spec and poll is None and "FATAL:2" in ev:
+        ctx.violation(WHAT_REFUSED_ANNOUNCED, rep)
+        return 1
+    return 0
+
+
+def short_announcement_scripts(rng, quick):
+    """server outputs that END inside (or before) the announcement, ssh alive: every length 0..11 of the announcement after
+    two NULs, after login noise, with NULs in the noise, delivered whole / in pieces / byte by byte; plus outputs that end
+    before the second NUL.  (An end of file here is what a remote python that dies at start-up, a wrapper that closes
+    stdout, or a daemonised ssh leaves behind while the process we poll() is still there.)"""
+    out = []
+    for k in range(len(ANNOUNCEMENT)):
+        pre = ANNOUNCEMENT[:k]
+        out.append([b"\0\0" + pre])
+        if k in (0, 1, 8, 11) or not quick:
+            out.append([b"Last login: today\r\n\0", b"\xe9\0" + pre])
+            out.append([b"\0", b"\0"] + [pre[i:i + 1] for i in range(k)])
+    out += [[b"\0", b"\0"], [b"x\0y"], [b"a\0b\0"], [b"a\0b\0c\0SSHUTTLE000"]]
+    for _ in range(4 if quick else 40):
+        k = rng.randrange(len(ANNOUNCEMENT))
+        noise = bytes(rng.randint(1, 255) for _ in range(rng.choice([0, 1, 5, 40])))
+        s = noise + b"\0" + bytes(rng.randint(1, 255) for _ in range(rng.choice([0, 0, 3]))) + b"\0" + ANNOUNCEMENT[:k]
+        i = rng.randint(0, len(s))
+        out.append([c for c in (s[:i], s[i:]) if c])
+    return out
+
+
 def part_client(ctx):
     rng = ctx.rng
     quick = ctx.quick()
@@ -2114,61 +2186,76 @@ def part_client(ctx):
     n = 0
     srcs_small = dict((k, b"# %s\n" % k.encode()) for k in SRCNAMES)
     srcs_small_na = dict((k, ("# %s — é → \U0001f600\n" % k).encode("utf-8")) for k in SRCNAMES)
+    combos = []
     for sc in scripts:
         for poll in (None, 0, 98, 255) if not quick else (None, 98):
             for seed in (None, [], ["h1", "h2.example"], ["x" * 70000]):
                 for accept in (None, 0, 1, 7, 15, 100000):
                     if quick and rng.random() < 0.6 and not (poll is None and seed is None and accept == 100000):
                         continue
-                    options = gen_options(rng, full=True)
-                    if n % 4 == 1:
-                        # a tiny latency budget: smaller than the multiplexer's very first message
-                        options["latency_buffer_size"] = rng.choice([1, 2, 5, 6, 7, 8, 14, 15, 16])
-                        ctx.count("client_tiny_latency_budget")
-                    ev, writes, packaged = client_trace(options, sc, poll, seed, accept,
-                                                        (srcs_small_na if n % 3 == 2 else srcs_small) if n % 3 else None)
-                    n += 1
-                    c1, c2 = (writes + [b"", b""])[:2]
-                    seedtok = "-" if seed is None else "S" + hx("\n".join(seed).encode())
-                    line = "CLIENT %s %s %s %s %s %s" % (hx(c1), hx(c2), "-" if poll is None else numhex(poll), seedtok,
-                                                          "-" if accept is None else numhex(accept), " ".join(hx(c) for c in sc))
-                    mo = ctx.run_driver([line])[0]
-                    m_ev, m_before, m_after = [x.strip() for x in mo.split("|")]
-                    impl_s = ",".join(ev)
-                    ctx.case(("client", tuple(sc), poll, tuple(seed) if seed is not None else None, accept), nontrivial=True,
-                             sample=None if n not in (3, 40) else {"kind": "client start-up", "server_deliveries": [hx(c) for c in sc], "poll": poll,
-                                     "seed_hosts": seed if seed is None or len("".join(seed)) < 100 else "70000 bytes", "first_write_accepts": accept,
-                                     "trace": [e[:40] for e in ev]})
-                    ctx.count("client_" + ("syncok" if "OK" in ev else "fatal"))
-                    # oracle on the implementation alone: before OK only the two uploads are written
-                    idx = ev.index("OK") if "OK" in ev else len(ev)
-                    wb = [e for e in ev[:idx] if e.startswith("W:")]
-                    asm_src = dict(packaged).get("sshuttle.assembler", b"")
-                    if len(wb) != 2 or unhx(wb[0][2:]) != asm_src or not unhx(wb[1][2:]).startswith(b"sshuttle\n"):
-                        ctx.violation("client wrote something other than the two uploads before the sync string was verified",
-                                      {"trace": [e[:60] for e in ev], "server_deliveries": [hx(c) for c in sc], "poll": poll,
-                                       "seed_hosts": None if seed is None else [s[:20] for s in seed], "accept": accept})
-                    # no read-ahead on the ssh socket: when the announcement has been verified the client has taken
-                    # exactly the bytes up to its end from the socket — anything more would sit in a private buffer
-                    # that select() cannot see (the multiplexer would never be woken for it)
-                    stream = b"".join(sc)
-                    i1 = stream.find(b"\0")
-                    i2 = stream.find(b"\0", i1 + 1) if i1 >= 0 else -1
-                    cao = getattr(client_trace, "consumed_at_ok", None)
-                    if "OK" in ev and i2 >= 0 and cao is not None and cao > i2 + 1 + 12:
-                        ctx.violation("the client read ahead of the server's announcement on the ssh socket: bytes that follow it "
-                                      "are held in a buffer select() cannot see",
-                                      {"server_deliveries": [hx(c) for c in sc], "bytes_taken_from_the_socket": cao,
-                                       "end_of_announcement": i2 + 13})
-                    alt = [e for e in ev if e.startswith("OPTIONS-ALTERED:")]
-                    if alt:
-                        ev = [e for e in ev if not e.startswith("OPTIONS-ALTERED:")]
-                        impl_s = ",".join(ev)
-                        ctx.violation("the client altered a session option between its own arguments and the packaged upload",
-                                      {"given": dict((k2, repr(v)) for k2, v in options.items()), "packaged": alt[0][16:][:400]})
-                    if impl_s != m_ev:
-                        ctx.disagree("client_startup trace", line[-300:], [e[:80] for e in ev], [e[:80] for e in m_ev.split(",")],
-                                     holds=(len(wb) == 2))
+                    combos.append((sc, poll, seed, accept))
+    # the server's output ends inside the announcement: ssh alive (the case that matters) with and without seed hosts,
+    # first flush taken whole / refused; ssh already gone for a few of them
+    for k, sc in enumerate(short_announcement_scripts(rng, quick)):
+        ctx.count("client_short_announcement_streams")
+        grid = [(None, None, 100000), (None, ["h1", "h2.example"], 7 if k % 2 else None)]
+        if not quick:
+            grid += [(None, [], 0), (None, ["x" * 70000], 100000), (0, None, 100000), (255, ["h1"], 1)]
+        elif k % 5 == 0:
+            grid.append((rng.choice([0, 98, 255]), None, 100000))
+        for poll, seed, accept in grid:
+            combos.append((sc, poll, seed, accept))
+    for sc, poll, seed, accept in combos:
+        options = gen_options(rng, full=True)
+        if n % 4 == 1:
+            # a tiny latency budget: smaller than the multiplexer's very first message
+            options["latency_buffer_size"] = rng.choice([1, 2, 5, 6, 7, 8, 14, 15, 16])
+            ctx.count("client_tiny_latency_budget")
+        ev, writes, packaged = client_trace(options, sc, poll, seed, accept,
+                                            (srcs_small_na if n % 3 == 2 else srcs_small) if n % 3 else None)
+        n += 1
+        c1, c2 = (writes + [b"", b""])[:2]
+        seedtok = "-" if seed is None else "S" + hx("\n".join(seed).encode())
+        line = "CLIENT %s %s %s %s %s %s" % (hx(c1), hx(c2), "-" if poll is None else numhex(poll), seedtok,
+                                              "-" if accept is None else numhex(accept), " ".join(hx(c) for c in sc))
+        mo = ctx.run_driver([line])[0]
+        m_ev, m_before, m_after = [x.strip() for x in mo.split("|")]
+        impl_s = ",".join(ev)
+        ctx.case(("client", tuple(sc), poll, tuple(seed) if seed is not None else None, accept), nontrivial=True,
+                 sample=None if n not in (3, 40) else {"kind": "client start-up", "server_deliveries": [hx(c) for c in sc], "poll": poll,
+                         "seed_hosts": seed if seed is None or len("".join(seed)) < 100 else "70000 bytes", "first_write_accepts": accept,
+                         "trace": [e[:40] for e in ev]})
+        ctx.count("client_" + ("syncok" if "OK" in ev else "fatal"))
+        # oracle on the implementation alone: before OK only the two uploads are written
+        idx = ev.index("OK") if "OK" in ev else len(ev)
+        wb = [e for e in ev[:idx] if e.startswith("W:")]
+        asm_src = dict(packaged).get("sshuttle.assembler", b"")
+        if len(wb) != 2 or unhx(wb[0][2:]) != asm_src or not unhx(wb[1][2:]).startswith(b"sshuttle\n"):
+            ctx.violation("client wrote something other than the two uploads before the sync string was verified",
+                          {"trace": [e[:60] for e in ev], "server_deliveries": [hx(c) for c in sc], "poll": poll,
+                           "seed_hosts": None if seed is None else [s[:20] for s in seed], "accept": accept})
+        # no read-ahead on the ssh socket: when the announcement has been verified the client has taken
+        # exactly the bytes up to its end from the socket — anything more would sit in a private buffer
+        # that select() cannot see (the multiplexer would never be woken for it)
+        stream = b"".join(sc)
+        i1 = stream.find(b"\0")
+        i2 = stream.find(b"\0", i1 + 1) if i1 >= 0 else -1
+        cao = getattr(client_trace, "consumed_at_ok", None)
+        if "OK" in ev and i2 >= 0 and cao is not None and cao > i2 + 1 + 12:
+            ctx.violation("the client read ahead of the server's announcement on the ssh socket: bytes that follow it "
+                          "are held in a buffer select() cannot see",
+                          {"server_deliveries": [hx(c) for c in sc], "bytes_taken_from_the_socket": cao,
+                           "end_of_announcement": i2 + 13})
+        announcement_verdict(ctx, ev, sc, poll, seed, accept)
+        alt = [e for e in ev if e.startswith("OPTIONS-ALTERED:")]
+        if alt:
+            ev = [e for e in ev if not e.startswith("OPTIONS-ALTERED:")]
+            impl_s = ",".join(ev)
+            ctx.violation("the client altered a session option between its own arguments and the packaged upload",
+                          {"given": dict((k2, repr(v)) for k2, v in options.items()), "packaged": alt[0][16:][:400]})
+        if impl_s != m_ev:
+            ctx.disagree("client_startup trace", line[-300:], [e[:80] for e in ev], [e[:80] for e in m_ev.split(",")],
+                         holds=(len(wb) == 2))
 
 
 # ---------------------------------------------------------------------------
@@ -2688,6 +2775,17 @@ def replay(ctx, rp):
         finally:
             scr.close()
         return len(ctx.violations) > before
+    if r.get("kind") == "client_announcement":
+        sc = [unhx(c) for c in r["server_deliveries"]]
+        ev, writes, packaged = client_trace({}, sc, r.get("poll"), r.get("seed_hosts"), r.get("accept"))
+        ok_spec, nafter = announced(b"".join(sc))
+        print("server output: %r (%d byte(s) after the second NUL; announced per specification: %s); ssh poll(): %r"
+              % (b"".join(sc)[:80], nafter, ok_spec, r.get("poll")))
+        print("client trace:", [e[:60] for e in ev])
+        n = announcement_verdict(ctx, ev, sc, r.get("poll"), r.get("seed_hosts"), r.get("accept"))
+        for what, rep in ctx.violations[before:]:
+            print("FAILS:", what)
+        return n > 0
     if "trace" in r and "server_deliveries" in r:
         sc = [unhx(c) for c in r["server_deliveries"]]
         ev, writes, packaged = client_trace({}, sc, r.get("poll"), r.get("seed_hosts"), r.get("accept"))
